@@ -438,6 +438,7 @@ func checkSignValidate(c *Ctx, tto *ssa.Function) {
 		c.Check("C06-R4", "standard-verify-flags", call.Pos(), ok, "the script engine is not created with txscript.StandardVerifyFlags")
 	}
 	checkPrevOutPerInput(c, "C06-R4")
+	checkUnlockHoldOnlyWhenUnlocked(c, "C06-R4")
 	checkWatchOnlyAnswerFromKeyMaterial(c, "C06-R4")
 	checkExplicitInputsPassEligibility(c, "C06-R3")
 	checkNoStaleTailAfterInPlaceFilter(c, "C06-R3")
@@ -563,4 +564,40 @@ func lookupConst(p *Program, pkgPath, name string) constant.Value {
 		}
 	}
 	return nil
+}
+
+// checkUnlockHoldOnlyWhenUnlocked: creating a transaction for a key-holding wallet asks the wallet locker to hold the
+// unlocked state for the duration of signing; the locker grants the hold (hands its hold channel over) only on the edge
+// where the address manager reports NOT locked, and refuses otherwise. Whether to sign is decided from the accounts'
+// key material, which Lock() wipes — with a hold granted to a locked wallet every account looks watch-only, signing and
+// validation are skipped, and an unsigned transaction is returned (and published) as a success.
+func checkUnlockHoldOnlyWhenUnlocked(c *Ctx, rule string) {
+	p := c.P
+	n := 0
+	for _, fn := range p.FuncsIn("wallet") {
+		for _, b := range fn.Blocks {
+			for _, ins := range b.Instrs {
+				snd, ok := ins.(*ssa.Send)
+				if !ok {
+					continue
+				}
+				nm, ok := snd.X.Type().(*types.Named)
+				if !ok || nm.Obj().Name() != "heldUnlock" {
+					continue
+				}
+				n++
+				ungated := reachableAvoiding(fn, nil, snd, func(from *ssa.BasicBlock, si int) bool {
+					f := edgeFactOf(from, si)
+					if f == nil || f.Kind != "false" {
+						return false
+					}
+					call, ok := f.V.(*ssa.Call)
+					return ok && calleeShort(&call.Call) == "IsLocked"
+				})
+				c.Check(rule, "unlock-hold-granted-only-when-unlocked:"+fnName(fn), snd.Pos(), !ungated,
+					fnName(fn)+" grants a hold on the unlocked state without having seen the address manager not locked: a locked key-holding wallet then creates transactions whose inputs are never signed (every account looks watch-only once Lock() wiped its key) and reports success")
+			}
+		}
+	}
+	c.Floor(rule, "grants of the unlock hold", n, 1)
 }
